@@ -43,6 +43,19 @@ def check_pipeline_shape(rep, facts, rule):
         rep.check(concat, rule, 'compress={}: the last pass is the byte concatenation (resolve_blobs)'.format(value),
                   lambda last=last: Finding(rule, 'assemble', last.node if last else fn, 'the returned program is not the result of resolve_blobs on the final item list', line=fn.lineno))
     rep.count('pipeline steps', n)
+    # between the passes nobody touches the list: an in-place change (pop / remove / insert / del / item assignment) of the
+    # variable that carries the items drops, adds or reorders directives outside every pass
+    seen_mut = set()
+    for value in (False, True):
+        for muts in getattr(pl, 'mutations', {}).get(value, []):
+            for node, text, at in muts:
+                if id(node) in seen_mut:
+                    continue
+                seen_mut.add(id(node))
+                rep.fail(Finding(rule, 'assemble', node, 'the item list is changed in place outside the passes ({}): directives are dropped, added or reordered behind the '
+                                 'back of the layout'.format(text), line=getattr(node, 'lineno', fn.lineno)), instance='no in-place change of the item list in assemble')
+    if not seen_mut:
+        rep.ok(rule, 'no in-place change of the item list in assemble')
     # the value returned by assemble is the result of that last call
     returned = None
     for st in ast.walk(fn):
